@@ -131,15 +131,23 @@ def lock_report():
     d = os.path.join(V, "work", "lockreport")
     os.makedirs(d, exist_ok=True)
     f = os.path.join(d, "report_%d.v" % os.getpid())
-    open(f, "w").write("From SigP Require Import GenLocksCheck.\nDefinition R := Eval vm_compute in lk_report.\nPrint R.\n")
+    open(f, "w").write("From Coq Require Import String List.\nImport ListNotations.\nFrom SigP Require Import GenLocksCheck.\nOpen Scope string_scope.\nDefinition R := Eval vm_compute in lk_report.\nPrint R.\n"
+                       "Definition Q := Eval vm_compute in lk_order_report.\nPrint Q.\n")
     rc, out, _ = sh(["coqc", "-Q", os.path.join(COQ, "model"), "SigM", "-Q", os.path.join(COQ, "proofs"), "SigP",
                      "-Q", os.path.join(COQ, "gen"), "SigG", f], timeout=600, cwd=d)
     if rc != 0:
         return [], "lock report did not evaluate: " + out[-600:]
     body = " ".join(out.split())
-    if re.search(r"R = (nil|\[\s*\])", body):
-        return [], ""
+    qbody = body[body.index("Q ="):] if "Q =" in body else ""
+    body = body[:body.index("Q =")] if "Q =" in body else body
     items = []
+    if qbody and not re.search(r"Q = (nil|\[\s*\])", qbody):
+        for m in re.finditer(r'\("([^"]*)",\s*"([^"]*)",\s*\[([^\]]*)\]\)', qbody):
+            items.append({"function": ", ".join(x.strip().strip('"') for x in m.group(3).split(";") if x.strip())[:300],
+                          "objection": "lock order cycle: %s is acquired while %s is held, against the order of the other functions" % (m.group(2), m.group(1)),
+                          "trace": ["Lock " + m.group(1), "Lock " + m.group(2)]})
+    if re.search(r"R = (nil|\[\s*\])", body):
+        return items, ""
     # ("lk_fn", [("signature", ["Lock x"; "send y"]); ...])
     for m in re.finditer(r'\("(lk_\w+)",\s*\[(.*?)\]\)\s*(?:;|\]\s*:)', body):
         fn, rest = m.group(1), m.group(2)
